@@ -243,7 +243,7 @@ def nonlinearly_update_residual(
     else:
         opt_state = optimize.OptimizeResults(sample, True, 0, None, None)
     if _raise_notconverged and (opt_state.status < 0):
-        ValueError("S: failed to invert map")
+        raise ValueError("S: failed to invert map")
     # Subtract position in the reduced space (i.e. space w/o point-estimates) to
     # not pollute the point-estimated parameters with the mean
     sample = opt_state.x - _process_point_estimate(
